@@ -96,7 +96,7 @@ def judge_s2p(case, col):
         if not (err <= TOL):
             raise Violation(f"sphere_plane_sphere_{tag}", case, observed=f"{err:.3e} rad via face {face}", expected=f"<= {TOL}")
     classes.append("s2p:adjacent_face")
-    col.case(case, nontrivial=True if nt else True, classes=classes)   # every case goes through the adjacent face as well
+    col.case(case, nontrivial=True, classes=classes)   # non-trivial by rule: every case also goes through the adjacent face
 
 
 def hexagon(k):
